@@ -27,9 +27,9 @@ package ignore
 //@   ensures result == nil ==> !reMatches(ignoreRegex, commentText) || !listAny(ignCodesOf(commentText))
 //@   ensures result != nil ==> result.StartPos == startPos && result.EndPos == endPos && (forall x string :: contains(result.Codes, x) <==> listHas(ignCodesOf(commentText), true, x))
 //@   assigns nothing
-//@   loop 1 invariant forall x string :: contains(codes, x) ==> (exists k int :: 0 <= k && k < $i && strings.TrimSpace(parts[k]) != "" && x == strings.ToUpper(strings.TrimSpace(parts[k])))
-//@   loop 1 invariant forall k int :: 0 <= k && k < $i && strings.TrimSpace(parts[k]) != "" ==> contains(codes, strings.ToUpper(strings.TrimSpace(parts[k])))
-//@   loop 1 invariant forall j int :: 0 <= j && j < len(codes) ==> (exists k int :: 0 <= k && k < $i && strings.TrimSpace(parts[k]) != "" && codes[j] == strings.ToUpper(strings.TrimSpace(parts[k])))
+//@   loop 1 invariant forall x string :: contains(codes, x) ==> (exists k int :: 0 <= k && k < $i && strings.TrimSpace($seq[k]) != "" && x == strings.ToUpper(strings.TrimSpace($seq[k])))
+//@   loop 1 invariant forall k int :: 0 <= k && k < $i && strings.TrimSpace($seq[k]) != "" ==> contains(codes, strings.ToUpper(strings.TrimSpace($seq[k])))
+//@   loop 1 invariant forall j int :: 0 <= j && j < len(codes) ==> (exists k int :: 0 <= k && k < $i && strings.TrimSpace($seq[k]) != "" && codes[j] == strings.ToUpper(strings.TrimSpace($seq[k])))
 
 // Stand-alone comment: the scope ends at the end of the declaration it precedes, or at the END of a node of the
 // enclosing declaration that starts after the comment (0 if there is none).
